@@ -185,6 +185,7 @@ def graph_features(moves):
     real = [(s, d) for s, d, _ in moves if s != d]
     src_of = {d: s for s, d in real if d != ZERO}
     cyc_int = cyc_flt = 0
+    longest = {False: 0, True: 0}
     seen: set[str] = set()
     for start in sorted(src_of):
         if start in seen:
@@ -195,13 +196,16 @@ def graph_features(moves):
             path.append(x)
             x = src_of[x]
         if x in path:  # new cycle
+            n = len(path) - path.index(x)
+            longest[is_float(x)] = max(longest[is_float(x)], n)
             if is_float(x):
                 cyc_flt += 1
             else:
                 cyc_int += 1
         seen.update(path)
     fan = len({s for s, _ in real}) < len(real)
-    return {"nonself": len(real), "cyc_int": cyc_int, "cyc_flt": cyc_flt, "fanout": fan}
+    return {"nonself": len(real), "cyc_int": cyc_int, "cyc_flt": cyc_flt, "fanout": fan,
+            "longest_int": longest[False], "longest_flt": longest[True]}
 
 
 def build_module(moves, free, ssa_mode):
@@ -333,7 +337,9 @@ def predicate(moves, free, ssa_mode, offending_float: bool | None, trace=None) -
         f = graph_features(moves)
         cyc = f["cyc_flt"] if offending_float else f["cyc_int"]
         hasfree = any(is_float(x) == offending_float for x in (free or ()))
-        parts += ["float" if offending_float else "int", "cycle" if cyc else "acyclic", "free" if hasfree else "nofree"]
+        longest = f["longest_flt"] if offending_float else f["longest_int"]
+        parts += ["float" if offending_float else "int",
+                  ("cycle2" if longest == 2 else "cycle3+") if cyc else "acyclic", "free" if hasfree else "nofree"]
         if not offending_float and trace is not None:
             parts.append("via=xor" if any(t.startswith("xor ") for t in trace) else "via=mv")
     parts.append(f"ssa={ssa_mode}")
@@ -511,6 +517,49 @@ def _shard(task) -> Stats:
     return st
 
 
+def _selftest() -> None:
+    """Hand-computed cases for the register machine and the oracle (a failure is a harness error)."""
+
+    class V:  # minimal stand-ins for SSA values / ops: only .type, .name, .operands, .results are read
+        def __init__(self, reg):
+            self.type = rt(reg)
+
+    class O:
+        def __init__(self, name, rd, *rs):
+            self.name, self.operands, self.results = name, list(rs), [V(rd)]
+
+    def run(prog):
+        m = Machine()
+        vals: dict[str, V] = {}
+        ops = []
+        for name, rd, *rs in prog:
+            o = O(name, rd, *[vals.get(r) or V(r) for r in rs])
+            vals[rd] = o.results[0]
+            ops.append(o)
+        trace, problem, _ = execute(ops, m)
+        return m, problem
+
+    swap = [("riscv.xor", "a0", "a0", "a1"), ("riscv.xor", "a1", "a0", "a1"), ("riscv.xor", "a0", "a0", "a1")]
+    m, p = run(swap)
+    assert p is None and m.read("a0") == Machine.initial("a1") and m.read("a1") == Machine.initial("a0")
+    m, p = run(swap[:2])  # unfinished swap: a0 still holds a0^a1
+    assert m.read("a0")[0] == frozenset(("a0", "a1")) and m.read("a1") == Machine.initial("a0")
+    m, p = run([("riscv.mv", "t0", "a0"), ("riscv.mv", "a0", "a1"), ("riscv.mv", "a1", "t0")])
+    assert m.read("a0") == Machine.initial("a1") and m.read("a1") == Machine.initial("a0") and m.read("t0") == Machine.initial("a0")
+    m, p = run([("riscv.mv", "a0", "a1"), ("riscv.mv", "a1", "a0")])  # naive sequential swap is wrong
+    assert m.read("a1") == Machine.initial("a1")
+    m, p = run([("riscv.mv", "zero", "a0"), ("riscv.mv", "a1", "zero")])
+    assert m.read("zero")[0] == frozenset() and m.read("a1")[0] == frozenset() and m.read("a0") == Machine.initial("a0")
+    m, p = run([("riscv.fmv.s", "fa1", "fa0"), ("riscv.fmv.d", "fa2", "fa1"), ("riscv.fmv.d", "fa3", "fa0")])
+    assert m.read("fa1") == (frozenset(("fa0",)), False) and m.read("fa2")[1] is False and m.read("fa3") == Machine.initial("fa0")
+    assert run([("riscv.add", "a0", "a0", "a1")])[1] == "unexpected-op:riscv.add"
+    assert run([("riscv.mv", "fa0", "a1")])[1] == "register-class-mismatch:riscv.mv"
+    f = graph_features([("a0", "a1", 32), ("a1", "a2", 32), ("a2", "a0", 32), ("a2", "a3", 32), ("fa0", "fa0", 32)])
+    assert (f["cyc_int"], f["cyc_flt"], f["longest_int"], f["nonself"], f["fanout"]) == (1, 0, 3, 4, True)
+    f = graph_features([("a0", "a1", 32), ("a1", "a0", 32), ("a3", "a2", 32)])
+    assert (f["cyc_int"], f["longest_int"], f["fanout"]) == (1, 2, False)
+
+
 def make_tasks(ctx):
     q = ctx.quick
     seed = ctx.seed
@@ -562,6 +611,7 @@ def make_tasks(ctx):
 
 
 def run(ctx):
+    _selftest()
     tasks, fam = make_tasks(ctx)
     # big shards first so the pool drains evenly
     tasks.sort(key=lambda t: -(len(t["idsts"]) * 10 + len(t["fdsts"]) * 7))
@@ -595,11 +645,6 @@ def run(ctx):
 def replay(rep) -> bool:
     w = rep["witness"]
     st = Stats()
-    moves = [tuple(x) for x in w["moves"]]
-    free = None if w["free"] is None else tuple(w["free"])
-    if w["ssa"] == "shared":
-        check_case(st, moves, free, "shared")
-    else:
-        k = check_case(Stats(), moves, free, "shared")
-        check_case(st, moves, free, "per-operand", k)
+    _selftest()
+    check_graph(st, [tuple(x) for x in w["moves"]], None if w["free"] is None else tuple(w["free"]))
     return rep["signature"] not in st.violations
